@@ -350,6 +350,14 @@ func (o *Objects) ModeOfValue(v constant.Value) Mode {
 func Callee(info *types.Info, call *ast.CallExpr) *types.Func {
 	fn, _ := typeutil.Callee(info, call).(*types.Func)
 	if fn == nil {
+		// a call through a local bound once to a method value: next := destination.NextWithContext; next(ctx, v)
+		if id, ok := ast.Unparen(call.Fun).(*ast.Ident); ok {
+			if o := info.Uses[id]; o != nil {
+				if mf := methodAliases[o]; mf != nil {
+					return mf
+				}
+			}
+		}
 		return nil
 	}
 	return fn.Origin()
